@@ -13,6 +13,7 @@ package main
 import (
 	"fmt"
 	"hash/fnv"
+	"math"
 	"math/rand"
 	"reflect"
 	"sort"
@@ -400,6 +401,17 @@ func (st *state) mkSetField(p *pos, f *rp.Field) *step {
 	v := st.resolve(p)
 	n := p.n
 	op := "Set"
+	// the same field set twice in a row with values that compare equal (==) and differ in their bits: +0.0 then
+	// -0.0 (or the reverse). A setter must store what it is given, not what it considers equal to what it holds.
+	var first reflect.Value
+	if val.Kind() == reflect.Float64 && st.rng.Intn(4) == 0 {
+		z := []float64{0, math.Copysign(0, -1)}
+		if st.rng.Intn(2) == 0 {
+			z[0], z[1] = z[1], z[0]
+		}
+		first = reflect.ValueOf(z[0]).Convert(val.Type())
+		val = reflect.ValueOf(z[1]).Convert(val.Type())
+	}
 	if f.OneOf {
 		op = "SetScalarAlt"
 	} else if f.Has >= 0 {
@@ -407,7 +419,12 @@ func (st *state) mkSetField(p *pos, f *rp.Field) *step {
 	}
 	return &step{op: op, kind: kindOf(p.ti), recv: p, mut: []int{p.r},
 		desc: fmt.Sprintf("%s %s.Set%s(%s)", st.where(p), p.ti.Name, f.Name, short(rp.LeafOf(val))),
-		impl: func() { v.Method(f.Set).Call([]reflect.Value{val}) },
+		impl: func() {
+			if first.IsValid() {
+				v.Method(f.Set).Call([]reflect.Value{first})
+			}
+			v.Method(f.Set).Call([]reflect.Value{val})
+		},
 		model: func() {
 			if f.OneOf {
 				st.clearAlts(n)
